@@ -205,6 +205,15 @@ pub fn c19_configs(tier: Tier) -> Vec<(Cfg, usize)> {
         };
         v.push((c, depth));
     }
+    // wrapped rows of visibly finished (reaped) bars: general list-of-bars oracle, no height overflow
+    let mut c = Cfg::base("c19-wrapped-zombies", 6, 14);
+    c.max_bars = 3;
+    c.inserts = false;
+    c.suspend = false;
+    c.bar_println = false;
+    c.root = pre_logs(2, vec![Op::Add, Op::Add, Op::Msg(0, 1), Op::Tick(1)]);
+    c.msgs = vec!["q".into(), "q".repeat(7), "q".repeat(11)];
+    v.push((c, if tier == Tier::Quick { 3 } else { 4 }));
     // a two-line template on a short terminal
     let mut c = Cfg::base("c19-two-line", 5, 3);
     c.height_clauses = true;
